@@ -152,6 +152,7 @@ def run(rep, tier, seed, replay=None):
         if k == 0:
             samples.append({"args": args[:5], "verdict": verdicts[:1], "first_events": [l for l in text.splitlines() if l.startswith("ev ")][:6]})
 
+    common.log("C14: %d controlled traces replayed (%d events)" % (stats["controlled_runs"], stats["events"]))
     # ---- 3. free-mode runs (real parallelism): results equal to sequential, live count restored
     nfree = 6 if tier == "quick" else 40
     for k in range(nfree):
@@ -176,6 +177,7 @@ def run(rep, tier, seed, replay=None):
                           {"kind": "oracle-results", "args": args, "differences": bad[:10]},
                           key=RACE_KEY if names_race(bad) else None)
 
+    common.log("C14: %d free-mode runs compared" % stats["free_runs"])
     # ---- 4. TSan validator: shared-DAG family and cold-start family
     tsan = {"ran": False}
     try:
@@ -197,6 +199,7 @@ def run(rep, tier, seed, replay=None):
             if r.returncode not in (0, 97):
                 found_input = True
                 rep.violation("treethreads crashed under TSan (rc=%d)" % r.returncode, {"kind": "crash", "args": args, "stderr": r.stderr[-3000:]})
+        common.log("C14: %d TSan shared-DAG runs, %d reports" % (stats["tsan_stress_runs"], stats["tsan_reports"]))
         reps_per_kind = 2 if tier == "quick" else 6
         for kind in COLD_KINDS:
             hits = 0
